@@ -224,13 +224,20 @@ static int wcoll_ctx_read_line (struct wcoll_ctx *ctx, char *line)
 
 static int wcoll_ctx_read_stream (struct wcoll_ctx *ctx, FILE *fp)
 {
-    char buf [LINEBUFSIZE];
+    char *buf = NULL;
+    size_t size = 0;
 
     assert (ctx != NULL);
     assert (fp != NULL);
 
-    while (fgets(buf, LINEBUFSIZE, fp) != NULL)
+    /*
+     *  Read whole lines whatever their length, so that a long list of
+     *   hosts on one line is never cut in the middle of a name.
+     */
+    while (getline(&buf, &size, fp) != -1)
         wcoll_ctx_read_line (ctx, buf);
+
+    free (buf);
     return 0;
 }
 
